@@ -91,7 +91,7 @@ func c10Labels(l map[string]bool) []string {
 
 // TestC10Faults: exhaustive single-fault enumeration over every API call of the reference run of each generated script.
 func TestC10Faults(t *testing.T) {
-	st := NewStats("C10", "single-fault", "for each generated fixed-desired-state script (hand-made revision chain with handover and archive/delete incl. delegated and sliced phases; ObjectDeployment template changes; package install and update), the undisturbed run to quiescence gives the reference end state and its number N of PKO API calls; then every call index 1..N (quick tier: a stride through them) x {error before effect, effect with lost response, crash before, crash after (process restart, dynamic cache lost)} is injected once, disturbances stop, the fair scheduler runs to quiescence; oracle = quiescence reached, end-state projection equals the reference, one more full round changes nothing; non-trivial = the fault hit a state-changing call")
+	st := NewStats("C10", "single-fault", "for each generated fixed-desired-state script (hand-made revision chain with handover and archive/delete incl. delegated and sliced phases; ObjectDeployment template changes; package install and update), the undisturbed run to quiescence gives the reference end state and its number N of PKO API calls; then every call index 1..N (quick tier: a stride through them) x {error before effect, effect with lost response, crash before, crash after (process restart, dynamic cache lost), and - for writes on PKO's own objects - a concurrent write by somebody else right before it (conflict)} is injected once, disturbances stop, the fair scheduler runs to quiescence; oracle = quiescence reached, end-state projection equals the reference, one more full round changes nothing; non-trivial = the fault hit a state-changing call")
 	shard, shards := 0, 1
 	fmt.Sscan(os.Getenv("VERIF_SHARD"), &shard)
 	fmt.Sscan(os.Getenv("VERIF_SHARDS"), &shards)
@@ -133,7 +133,10 @@ func TestC10Faults(t *testing.T) {
 		off := rapid.IntRange(0, stride-1).Draw(rt, "offset")
 		st.Count("reference_calls", int64(ref.calls))
 		for g := 1 + off; g <= ref.calls; g += stride {
-			for kind := 0; kind < 4; kind++ {
+			for kind := 0; kind <= C10ConcurrentWrite; kind++ {
+				if kind == C10ConcurrentWrite && !ref.writeCall[g] {
+					continue // only calls that change state can be raced with
+				}
 				c := &c10Case{Part: "single-fault", Script: script, Dist: C10Disturbance{Faults: []C10Fault{{Call: g, Kind: kind}}}}
 				got, err := runC10(script, c.Dist)
 				if err == nil {
@@ -187,7 +190,7 @@ func TestC10Sequences(t *testing.T) {
 		c := &c10Case{Part: "sequences", Script: script}
 		nf := rapid.IntRange(1, 5).Draw(rt, "nfaults")
 		for i := 0; i < nf; i++ {
-			c.Dist.Faults = append(c.Dist.Faults, C10Fault{Call: rapid.IntRange(1, ref.calls+10).Draw(rt, "call"), Kind: rapid.IntRange(0, 3).Draw(rt, "kind")})
+			c.Dist.Faults = append(c.Dist.Faults, C10Fault{Call: rapid.IntRange(1, ref.calls+10).Draw(rt, "call"), Kind: rapid.IntRange(0, C10ConcurrentWrite).Draw(rt, "kind")})
 		}
 		nd := rapid.IntRange(0, 3).Draw(rt, "ndrift")
 		for i := 0; i < nd; i++ {
